@@ -57,14 +57,21 @@ J('A.wcsnlen_s', ['C02', 'C10', 'C05', 'C01'], 'A', 'contracts/str/strnlen_s.spe
 
 SCAN1 = [(1, 'strisalphanumeric_s'), (2, 'strisascii_s'), (3, 'strisdigit_s'), (4, 'strishex_s'), (5, 'strislowercase_s'),
          (6, 'strismixedcase_s'), (7, 'strisuppercase_s'), (10, 'strzero_s'), (11, 'strset_s'), (12, 'strtolowercase_s'),
-         (13, 'strtouppercase_s'), (14, 'strnterminate_s')]
+         (13, 'strtouppercase_s'), (14, 'strnterminate_s'), (20, 'strfirstchar_s'), (21, 'strlastchar_s')]
 for fn, nm in SCAN1:
     src = 'src/extstr/%s.c' % nm
-    J('A.%s' % nm, ['C02', 'C05', 'C01'] + (['C10'] if fn <= 7 else ['C03', 'C06', 'C08']), 'A', 'contracts/extstr/scan1.spec.c',
+    J('A.%s' % nm, ['C02', 'C05', 'C01'] + (['C10'] if (fn <= 7 or fn >= 20) else ['C03', 'C06', 'C08']), 'A', 'contracts/extstr/scan1.spec.c',
       defines=['FN=%d' % fn], sources=[src], overlays={src: 'contracts/extstr/scan1_%s.loops' % nm},
       enforce='_%s_chk' % nm, functions=['_%s_chk' % nm], sliced=False, timeout=600,
-      fallback=('B.q.%s' % nm if fn <= 7 else None),
+      fallback=('B.q.%s' % nm if (fn <= 7 or fn >= 20) else None),
       note='exact-fit object of symbolic size, dmax any 64-bit value, object size known or unknown to the library')
+
+for fn, nm in ((1, 'strfirstdiff_s'), (2, 'strfirstsame_s'), (3, 'strlastdiff_s'), (4, 'strlastsame_s')):
+    src = 'src/extstr/%s.c' % nm
+    J('A.%s' % nm, ['C10', 'C02', 'C05', 'C01'], 'A', 'contracts/extstr/scan2.spec.c',
+      defines=['FN=%d' % fn], sources=[src], overlays={src: 'contracts/extstr/scan2_%s.loops' % nm},
+      enforce='_%s_chk' % nm, functions=['_%s_chk' % nm], sliced=False, timeout=600, fallback='B.q.%s' % nm,
+      note='two separate exact-fit objects of symbolic size, dmax any 64-bit value, object size of dest known or unknown to the library')
 
 # ---- engine B: copy / concatenate family against the reference model in harness/copyfam.c
 STR_COMMON = ['src/str/safe_str_constraint.c', 'src/str/strnlen_s.c', 'src/ignore_handler_s.c']
